@@ -7,6 +7,8 @@ import DateutilVerif.Proofs.RRuleStrText
 namespace RRuleStr
 open ICal (isSpace upper splitOnChar pyInt rstrip strip isDigit splitLines)
 
+variable {po : ParseOpts}
+
 /-- a weekday name of `_weekday_map` with its number -/
 def IsWD (w : List Char) (k : Int) : Prop := (w, k) ∈ weekdayMap
 
@@ -126,7 +128,7 @@ theorem parseWDay_unknown_name {w : List Char} (hne : w ≠ []) (hp : '(' ∉ w)
   simp
 
 /-- `_handle_BYDAY = _handle_BYWEEKDAY` -/
-theorem handleU_byday_eq_byweekday (value : List Char) : handleU (lit "BYDAY") value = handleU (lit "BYWEEKDAY") value := by
+theorem handleU_byday_eq_byweekday (value : List Char) : handleU po (lit "BYDAY") value = handleU po (lit "BYWEEKDAY") value := by
   simp [handleU, lit]
 
 end RRuleStr
